@@ -1573,6 +1573,24 @@ func decodedElems(v ssa.Value, env *fxEnv, depth int) []elemOrigin {
 	}
 	// the type witness may be handed to a helper as an argument
 	targ, tenv := env.resolve(n.Call.Args[0])
+	// a witness hoisted out of the loop under a nil guard is φ(nil, reflect.TypeOf(m.F)): take the one real edge
+	if phi, isPhi := targ.(*ssa.Phi); isPhi {
+		var real ssa.Value
+		for _, e := range phi.Edges {
+			ev, _ := tenv.resolve(e)
+			if ir.IsNilConst(ev) {
+				continue
+			}
+			if real != nil && real != ev {
+				return bad
+			}
+			real = ev
+		}
+		if real == nil {
+			return bad
+		}
+		targ = real
+	}
 	t := step(targ, "reflect.TypeOf")
 	if t == nil {
 		return bad
